@@ -28,7 +28,8 @@ if __package__ in (None, ""):
 from . import _market as M  # noqa: E402
 
 PROPERTY = "C18"
-SESSION_CLAUSES = ["same-process-repeat", "shared-datasource-repeat", "hash-seed-independent", "allocation-column-order"]
+SESSION_CLAUSES = ["same-process-repeat", "shared-datasource-repeat", "hash-seed-independent", "allocation-column-order",
+                   "default-datasource-repeat"]
 MICRO = "sizers-and-pcm-hash-seed-independent"
 CLAUSES = SESSION_CLAUSES + [MICRO]
 N_QUICK, K_QUICK = 6, 2
@@ -43,7 +44,10 @@ BOUND = (
     "zero or percentage fees, burn-in on 1 case in 3. Per case: the same configuration on a different market (same "
     "symbols and dates, own directory and objects), then run A and run B with fresh objects; run C, then an "
     "unrelated session plus 200 ad-hoc bid/ask queries, then run D, all on ONE CSVDailyBarDataSource object; "
-    "fresh interpreters with PYTHONHASHSEED = 0..k each re-running the case. Compared bit for bit: history events "
+    "fresh interpreters with PYTHONHASHSEED = 0..k each re-running the case; for the fixed-weight configurations also "
+    "run E on the session's own default data source (no handler passed, environment variable unset, current "
+    "directory read) straight after such a session in another directory holding another market under the same file "
+    "names and modification times. Compared bit for bit: history events "
     "of type asset_transaction (dt, description, debit, credit, balance) and the recorded transactions (time, "
     "asset, quantity, price, commission), the equity curve and get_equity_curve(), the allocation rows and "
     "get_target_allocations() (values by column name under the three run clauses; key order of every row and the "
@@ -188,7 +192,27 @@ def in_process(case):
             asset = M.asset_of(rng.choice(cfg["symbols"]))
             (shared.get_bid if rng.random() < 0.5 else shared.get_ask)(when, asset)
         dd = parts(M.run_session(d, cfg, data_source=shared))
-    return a, b, c, dd
+        e = None
+        if cfg["alpha"]["kind"] in ("fixed", "universe_fixed"):
+            # the session's OWN default data source (no handler passed; QSTRADER_CSV_DATA_DIR unset, so the current directory
+            # is read): first from a directory holding another market under the same file names and modification times,
+            # then from this one - the same back-test as run A
+            with tempfile.TemporaryDirectory(prefix="c18y_") as d3:
+                M.write_market(d3, M.gen_market(dict(case["market"], seed=case["market"]["seed"] + 2)))
+                for dirname in (d, d3):
+                    for fn in os.listdir(dirname):
+                        os.utime(os.path.join(dirname, fn), (1600000000, 1600000000))
+                cwd, env = os.getcwd(), os.environ.pop("QSTRADER_CSV_DATA_DIR", None)
+                try:
+                    os.chdir(d3)
+                    M.run_session(d3, cfg, default_handler=True)
+                    os.chdir(d)
+                    e = parts(M.run_session(d, cfg, default_handler=True))
+                finally:
+                    os.chdir(cwd)
+                    if env is not None:
+                        os.environ["QSTRADER_CSV_DATA_DIR"] = env
+    return a, b, c, dd, e
 
 
 def child_run(cases):
@@ -232,8 +256,11 @@ def check_cases(cases, k):
             remote.append(json.loads(out.strip().splitlines()[-1]))
     recs = []
     for ci, case in enumerate(cases):
-        a, b, c, d = local[ci]
+        a, b, c, d, e = local[ci]
         res = [("same-process-repeat", values_equal(a, b), diff(a, b), "run B == run A")]
+        if e is not None:
+            res.append(("default-datasource-repeat", values_equal(a, e), diff(a, e),
+                        "run on the session's default data source, after one from another directory, == run A"))
         ok_s = values_equal(a, c) and values_equal(a, d)
         res.append(("shared-datasource-repeat", ok_s, {"first_use": diff(a, c), "after_history": diff(a, d)},
                     "runs on the shared data source == run A"))
